@@ -842,6 +842,8 @@ func (vm *vm) handleThrow(arg interface{}) *Exception {
 		vm.privEnv = tf.privEnv
 		if ex != nil {
 			_ = vm.restoreStacks(tf.iterLen, tf.refLen)
+			// closing the iterators pushes (and pops) try frames: the stack may have been reallocated
+			tf = &vm.tryStack[len(vm.tryStack)-1]
 		} else {
 			vm.dropStacks(tf.iterLen, tf.refLen)
 		}
